@@ -19,7 +19,8 @@ pub fn spec(tier: Tier) -> RelSpec {
     }
     let cfgs = match tier {
         Tier::Quick => vec![mk(2, vec![SrcKind::OpenT, SrcKind::LetClosed, SrcKind::SubClosed, SrcKind::Literal], 1)],
-        Tier::Thorough => vec![mk(2, vec![SrcKind::OpenT, SrcKind::LetClosed, SrcKind::SubClosed, SrcKind::Literal, SrcKind::LetSorted], 2)],
+        // depth 2 over all source kinds with two joins, and every depth-3 program over the two basic source kinds
+        Tier::Thorough => vec![mk(2, vec![SrcKind::OpenT, SrcKind::LetClosed, SrcKind::SubClosed, SrcKind::Literal, SrcKind::LetSorted], 2), mk(3, vec![SrcKind::OpenT, SrcKind::LetClosed], 1)],
     };
     RelSpec {
         property: "C05",
